@@ -111,7 +111,7 @@ def gen_vnode_header(cls, enums):
             emit = ''
             if sig is not None:
                 emit = f' {sig.name}({"v" if sig.args else ""});'
-            L.append(f'    void {p.write}({"const " + ct + " &" if ct in ("QString", "QStringList") else ct} v) {{ '
+            L.append(f'    void {p.write}({"const " + ct + " &" if ct in ("QString", "QStringList", "QFont") else ct} v) {{ '
                      f'verif::trace() << "SET " << name_ << ".{p.name} " << verif::show(v) << "\\n"; if ({p.name}_ == v) return; {p.name}_ = v;{emit} }}')
     seen = set()
     for s in cls.signals:
@@ -121,8 +121,9 @@ def gen_vnode_header(cls, enums):
         seen.add(key)
         params = ', '.join(f'{"const QString &" if t == "QString" else cxx_type(t)} p{i}' for i, t in enumerate(s.args))
         targs = ', '.join(['VNode'] + [("const QString &" if t == "QString" else cxx_type(t)) for t in s.args])
-        full = max(cls.signals_named(s.name), key=lambda m: len(m.args))
-        if len(s.args) == len(full.args) or [a for a in full.args[:len(s.args)]] != s.args:
+        fam = [m for m in cls.signals_named(s.name) if m.args[:len(s.args)] == s.args]
+        full = max(fam, key=lambda m: len(m.args))
+        if len(s.args) == len(full.args):
             call = f'emitSignal<{targs}>(&VNode::{s.name}' + ''.join(f', p{i}' for i in range(len(s.args))) + ');'
         else:
             # default-argument family: the shorter overload emits the longest one with defaults
